@@ -37,12 +37,15 @@ def ob_linear_merge(width, depth, timeout_ms):
     key, kid = book.new_key("key")
     colk = cmh.keycols(book, kid, width, depth)
     ea, eb, er = cm_est(pre, a.cms, colk), cm_est(pre, b.cms, colk), cm_est(post.heap, a.cms, colk)
+    deep = width * depth > 16
     goals = [("every cell == min(a + b, 2^32-1)", z3.And(*[r == sat_add(x, y) for r, x, y in zip(R, A, B)])),
              ("argument sketch unchanged (table and bookkeeping)", z3.And(*[x == y for sid in (b.cms.sid, b.nar.sid) for x, y in zip(post.heap[sid], pre[sid])])),
              ("n_added and n_records are the sums", z3.And(post.heap[a.nar.sid][0] == pre[a.nar.sid][0] + pre[b.nar.sid][0], post.heap[a.nar.sid][1] == pre[a.nar.sid][1] + pre[b.nar.sid][1])),
              ("merged counter never below either input", z3.And(*[z3.And(z3.UGE(r, x), z3.UGE(r, y)) for r, x, y in zip(R, A, B)])),
              ("merging an empty sketch changes nothing", z3.Implies(z3.And(*[y == 0 for y in B]), z3.And(*[r == x for r, x in zip(R, A)]))),
              ("merged estimate >= min(est_a + est_b, 2^32-1) for any key", z3.UGE(er, sat_add(ea, eb)))]
+    if deep:
+        goals.pop()  # decided by decomposition below (row lemma per row + depth-d glue lemma)
     for i, (kind, cond) in enumerate(post.oblig):
         goals.append((f"safety[{i}] {kind}", z3.Not(cond)))
     funcs = set(ex.funcs_encoded)
@@ -56,6 +59,8 @@ def ob_linear_merge(width, depth, timeout_ms):
                   z3.And(*[x == y for x, y in zip(post.heap[a.cms.sid], post2.heap[b.cms.sid])] + [x == y for x, y in zip(post.heap[a.nar.sid], post2.heap[b.nar.sid])])))
     assume = list(post.pc) + list(post2.pc) + book.range_constraints()
     r, info = cmh.first_failure(assume, goals, timeout_ms, stats, f"_merge_linear {depth}x{width}")
+    if r is None and deep:
+        r, info = cmh.merge_estimate_goals_decomposed(assume, pre, post, a, b, colk, sat_add, timeout_ms, stats, f"_merge_linear {depth}x{width}")
     if r is None:
         return {"status": "proved", "stats": stats.as_dict(), "funcs": sorted(funcs)}
     if r == "unknown":
